@@ -14,7 +14,7 @@ Definition rt_lookup (rt : regtable) (c : addr) : option share_entry :=
 Record tx_obs := { o_class : nat; o_err : nat; o_delta : table; o_reg : regtable }.
 
 Inductive cstep :=
-| CParams (p : params)
+| CParams (p : params) (accepted : bool)      (* observed: did UpdateParams accept it *)
 | CAdmin (c : addr) (a : option addr)
 | CBlock (bal : table)            (* balances re-read after EndBlock/BeginBlock *)
 | CTx (t : txin) (o : tx_obs).
@@ -59,7 +59,7 @@ Definition tx_mismatch (c : case) (st st' : state) (out : txout) (o : tx_obs) : 
 Fixpoint run_mismatch (c : case) (st : state) (steps : list cstep) : bool :=
   match steps with
   | [] => false
-  | CParams p :: r => run_mismatch c (step_env st (SetParams p)) r
+  | CParams p ok :: r => negb (Bool.eqb (params_valid p) ok) || run_mismatch c (step_env st (SetParams p)) r
   | CAdmin k a :: r => run_mismatch c (step_env st (SetAdmin k a)) r
   | CBlock bal :: r => run_mismatch c (step_env st (Resync (tlookup bal))) r
   | CTx t o :: r =>
@@ -74,7 +74,7 @@ Definition mismatch (c : case) : bool := run_mismatch c (init_state c) (c_steps 
 Fixpoint run_violates (E : env) (p : params) (W : wasm) (rb : regtable) (steps : list cstep) : bool :=
   match steps with
   | [] => false
-  | CParams p' :: r => run_violates E p' W rb r
+  | CParams p' ok :: r => run_violates E (if ok then p' else p) W rb r
   | CAdmin k a :: r => run_violates E p (wasm_set_admin W k a) rb r
   | CBlock _ :: r => run_violates E p W rb r
   | CTx t o :: r =>
